@@ -69,6 +69,7 @@ def check_lock_log(log, L, snapshots_obs=None):
     creq = set()  # tasks whose current acquire has a cancellation request in flight
     must_cancel = set()  # pre-cancelled acquires that could complete without waiting (C08)
     pc = set()  # tasks whose current op runs in a scope cancelled before the op began
+    commanded = set()  # actors whose "dirty" op has been commanded but has not begun yet
     for ev in log:
         kind = ev[2]
         if kind == "teardown":
@@ -82,12 +83,17 @@ def check_lock_log(log, L, snapshots_obs=None):
                 continue
             if e[0] in ("cancel", "ncancel") and e[1] in inflight:
                 creq.add(e[1])
+            elif e[0] == "cancel" and e[1] in commanded:
+                pc.add(e[1])  # scope cancelled during the prelude of a "dirty" op: as if pre-cancelled
+            elif e[0] == "cmd" and e[2][0] == "dirty":
+                commanded.add(e[1])
             continue
         if kind == "x" and ev[5] == "pc":
             pc.add(ev[3])
             continue
         if kind == "b" and ev[5] == "acquire" and ev[6] == [L]:
             t = ev[3]
+            commanded.discard(t)
             inflight[t] = ev[4]
             if t in pc:
                 creq.add(t)
